@@ -520,6 +520,62 @@ Proof.
 Qed.
 Print Assumptions c10_build_serialises_same_state.
 
+(* c10_only_apko_json_sees_layering: goextract inspects every primitive call of the step lists
+   (harness/cmd/goextract/gen_c10_layering.go, by shape): an expression `x.Layering` in the callee —
+   transitively through the functions and Context methods of pkg/build — or among the arguments at
+   the call site, or the image configuration AS A WHOLE handed to something outside pkg/build.
+   Every primitive call was inspected; the calls that can see the layering block and may change
+   the filesystem are exactly [WriteEtcApkoConfig] (groupByOriginAndSize sees the budget and is a
+   read).  A step that starts to look at the layering block makes this false. *)
+Theorem c10_only_apko_json_sees_layering :
+  layering_ok c10_steps c10_layering_readers c10_layering_inspected = true.
+Proof. vm_compute. reflexivity. Qed.
+Print Assumptions c10_only_apko_json_sees_layering.
+
+(* c10_build_serialises_same_state_src: the hypothesis "every step takes related states to
+   related outcomes in the two builds" of c10_build_serialises_same_state, reduced with that
+   fact: [sem b] = what the steps do with (true) / without (false) a layering block.  Asked:
+   a step that CANNOT SEE the block (not in c10_layering_readers, read from the source) does the
+   same in both; every step preserves R; reads are the identity; and ONLY for the readers that may
+   change the filesystem — by the theorem above: WriteEtcApkoConfig — that the two behaviours
+   differ in nothing R looks at. *)
+Theorem c10_build_serialises_same_state_src :
+  forall (S : Type) (R : S -> S -> Prop) (sem : bool -> string -> S -> res S),
+  (forall n, in_list n c10_layering_readers = false -> sem true n = sem false n) ->
+  (forall n s s', R s s' -> res_rel S R (sem false n s) (sem false n s')) ->
+  (forall n s s', in_list n c10_layering_readers = true -> in_list n pure_calls = false ->
+     R s s' -> res_rel S R (sem false n s) (sem true n s')) ->
+  (forall b n s, in_list n pure_calls = true -> sem b n s = Ok s) ->
+  forall cond s0 s0', R s0 s0' ->
+  match split_at_serialiser (fst (build_trace c10_steps (override (single_when c10_steps) cond))),
+        split_at_serialiser (fst (build_trace c10_steps (override (multi_when c10_steps) cond))) with
+  | Some (a, _, _), Some (a', _, _) => res_rel S R (exec S (sem false) a s0) (exec S (sem true) a' s0')
+  | None, None => True
+  | _, _ => False
+  end.
+Proof.
+  intros S R sem Hb Hm Hr Hp cond s0 s0' H0.
+  exact (c10_build_serialises_same_state S R (sem false) (sem true)
+           (rel_from_readers S R c10_layering_readers sem Hb Hm Hr Hp) (Hp false) (Hp true) cond s0 s0' H0).
+Qed.
+Print Assumptions c10_build_serialises_same_state_src.
+
+(* the hypotheses are satisfiable with a step that does depend on the block: states = the text of
+   etc/apko.json, R ignores it, WriteEtcApkoConfig writes the flag *)
+Example c10_build_serialises_same_state_src_example :
+  let sem (b : bool) (n : string) (s : bool) : res bool :=
+    if String.eqb n "bc.WriteEtcApkoConfig" then Ok b else Ok s in
+  (forall n, in_list n c10_layering_readers = false -> sem true n = sem false n) /\
+  exec bool (sem true) ["bc.WriteEtcApkoConfig"] false <> exec bool (sem false) ["bc.WriteEtcApkoConfig"] false.
+Proof.
+  intros sem. split.
+  - intros n H. assert (E : String.eqb n "bc.WriteEtcApkoConfig" = false).
+    { destruct (String.eqb n "bc.WriteEtcApkoConfig") eqn:E; [| reflexivity].
+      apply String.eqb_eq in E. subst n. vm_compute in H. discriminate H. }
+    subst sem. cbv beta. revert E. destruct (String.eqb n "bc.WriteEtcApkoConfig"); intros E; [discriminate E | reflexivity].
+  - vm_compute. discriminate.
+Qed.
+
 (* ... and with the flatten theorem: states are trees, the layered build splits the
    walk of its final tree, the single-layer build writes the walk of its own: the
    layers flatten to a tree R-related to the one the single layer extracts to. *)
